@@ -129,6 +129,13 @@ pub fn exec(op: &str, a: &[u64]) -> Result<Outcome, String> {
             let bn = r.nat()?;
             let bd = r.nat()?;
             let ts = texts_from(&mut r, g, 3)?;
+            if op == "spellf1" {
+                // the observed sub-results (three word matchings and the edit script per triple) are for the model
+                let _subs = r.list(|r| {
+                    let pairs = |r: &mut Rd| r.list(|r| Ok((r.nat()?, r.nat()?)));
+                    Ok((pairs(r)?, pairs(r)?, pairs(r)?, r.list(|r| Ok((r.nat()?, r.nat()?, r.nat()?)))?))
+                })?;
+            }
             r.end()?;
             let i: Vec<&str> = ts.iter().map(|p| p[0].as_str()).collect();
             let p: Vec<&str> = ts.iter().map(|p| p[1].as_str()).collect();
@@ -171,6 +178,40 @@ pub fn exec(op: &str, a: &[u64]) -> Result<Outcome, String> {
             }
         }
         _ => Err(format!("unknown op {op}")),
+    }
+}
+
+/// the sub-results of `_spelling_correction_tp_fp_fn` the property leaves open, obtained from the same public
+/// functions on the prepared texts: match_words (input/target, input/prediction, prediction/target) and the edit
+/// script operations(input, prediction, use_graphemes, false, true)
+fn enc_spell_subs(v: &mut Vec<u64>, ts: &[(String, String, String)], g: bool) {
+    use text_utils::edit::{operations, EditOperation};
+    use text_utils::text::match_words;
+    v.push(ts.len() as u64);
+    for (i, p, t) in ts {
+        let (i, p, t) = (prep(i), prep(p), prep(t));
+        let res = std::panic::catch_unwind(|| {
+            (match_words(&i, &t, false).0, match_words(&i, &p, false).0, match_words(&p, &t, false).0, operations(&i, &p, g, false, true))
+        });
+        let (mit, mip, mpt, ops) = res.unwrap_or_default();
+        for m in [&mit, &mip, &mpt] {
+            v.push(m.len() as u64);
+            for (a, b) in m {
+                v.push(*a as u64);
+                v.push(*b as u64);
+            }
+        }
+        v.push(ops.len() as u64);
+        for (k, a, b) in &ops {
+            v.push(match k {
+                EditOperation::Insert => 0,
+                EditOperation::Delete => 1,
+                EditOperation::Replace => 2,
+                EditOperation::Swap => 3,
+            });
+            v.push(*a as u64);
+            v.push(*b as u64);
+        }
     }
 }
 
@@ -285,6 +326,7 @@ pub fn run_c13(ctx: &mut Ctx) {
         }
         let mut v = vec![g as u64, sa as u64, bn, bd];
         enc_triples(&mut v, &ts, g);
+        enc_spell_subs(&mut v, &ts, g);
         ctx.case("spellf1", &v);
         // mean edit distance
         let mut v = vec![g as u64, (i % 2) as u64, ts.len() as u64];
